@@ -142,6 +142,8 @@ func (p *Parser) ParseFile(filename string, varPool *VarPool) (*MetaData, []*Bui
 	// (the files that declare them are skipped above as generated): an import or a variable of the
 	// generated code must not take one of them.
 	if injectObj := kessokuPackageScope.Lookup("Inject"); injectObj != nil && pkg.TypesInfo != nil {
+		declared := map[string]int{} // injector name -> number of declarations in the package
+		var ownNames []string        // injector names of the file being processed
 		for _, f := range pkg.Syntax {
 			if f == nil || isKessokuGenerated(f) {
 				continue
@@ -165,10 +167,26 @@ func (p *Parser) ParseFile(filename string, varPool *VarPool) (*MetaData, []*Bui
 				if tv, ok := pkg.TypesInfo.Types[call.Args[0]]; ok && tv.Value != nil && tv.Value.Kind() == constant.String {
 					if name := constant.StringVal(tv.Value); token.IsIdentifier(name) {
 						_ = varPool.GetName(name)
+						declared[name]++
+						if f == targetFile {
+							ownNames = append(ownNames, name)
+						}
 					}
 				}
 				return true
 			})
+		}
+
+		// The generated function is a package-level declaration: its name must be free.
+		for _, name := range ownNames {
+			if declared[name] > 1 {
+				return nil, nil, fmt.Errorf("injector name %s is used by %d kessoku.Inject declarations of the package", name, declared[name])
+			}
+			if obj := pkg.Types.Scope().Lookup(name); obj != nil {
+				if f := p.fileOf(pkg, obj.Pos()); f != nil && !isKessokuGenerated(f) {
+					return nil, nil, fmt.Errorf("injector name %s is already declared at %s", name, p.fset.Position(obj.Pos()))
+				}
+			}
 		}
 	}
 
@@ -251,6 +269,16 @@ func (p *Parser) ParseFile(filename string, varPool *VarPool) (*MetaData, []*Bui
 	}
 
 	return metaData, builds, nil
+}
+
+// fileOf returns the syntax tree of the package's file that contains pos.
+func (p *Parser) fileOf(pkg *packages.Package, pos token.Pos) *ast.File {
+	for _, f := range pkg.Syntax {
+		if f != nil && f.FileStart <= pos && pos <= f.FileEnd {
+			return f
+		}
+	}
+	return nil
 }
 
 // isKessokuGenerated reports whether f carries the header kessoku writes into *_band.go files.
